@@ -1134,6 +1134,209 @@ def _reads_param(ctx, f, n: ast.Name, param: str) -> bool:
 
 
 
+# ================================================================================================
+# R7 between parsing and the compute graph the expression tree is only transformed by the enumerated rewrites
+# ================================================================================================
+
+# transformations of a parsed expression that are present today, with the reason why they keep its floating-point meaning
+ACCEPTED_EXPR_TRANSFORMS = {
+    "subs": "replaces argument sub-expressions by the symbols of the compute-graph variables they were parsed into (renaming)",
+    "replace": "same renaming for occurrences that `subs` did not reach (exact structural replacement of a sub-expression)",
+    "xreplace": "exact structural replacement of sub-expressions (renaming)",
+}
+# read-only queries on an expression
+EXPR_QUERIES = {"count", "find", "has", "atoms", "match", "equals", "as_coeff_Mul", "as_coeff_Add", "as_independent", "is_constant",
+                "could_extract_minus_sign", "__str__", "__repr__", "count_ops", "as_ordered_terms", "as_ordered_factors"}
+# sympy operations that rewrite the arithmetic (simplifiers / normalisers / numeric evaluation)
+REWRITING_OPS = {"expand", "simplify", "factor", "cancel", "together", "apart", "nsimplify", "powsimp", "powdenest", "trigsimp",
+                 "radsimp", "ratsimp", "collect", "logcombine", "combsimp", "gammasimp", "hyperexpand", "expand_log", "expand_mul",
+                 "expand_multinomial", "expand_power_base", "expand_power_exp", "expand_trig", "expand_func", "expand_complex",
+                 "rewrite", "evalf", "n", "normal", "horner", "separatevars", "sqrtdenest", "signsimp", "besselsimp", "kroneckersimp",
+                 "cse", "refine", "posify", "factor_terms", "radsimp", "fraction", "nfloat", "N"}
+PARSE_CALLS = {"sympy.sympify", "sympy.parse_expr", "sympy.parsing.sympy_parser.parse_expr", "sympy.S", "sympy.core.sympify.sympify"}
+
+
+def _expr_typing(ctx, funcs, parser_attrs):
+    """Which local names / self attributes hold parsed sympy expressions, per function (fix point of a small type inference:
+    results of the parsing function, parameters annotated `Expr`, results of expression-returning methods, elements of
+    `.args`, loop variables over such collections).  Returns (is_expr(f, node) predicate, expression-valued self attributes)."""
+    expr_attrs: Set[str] = set()
+    env: Dict[object, Set[str]] = {f: set() for f in funcs}
+    tup: Dict[object, Set[str]] = {f: set() for f in funcs}           # names holding collections of expressions
+    for f in funcs:
+        a = f.node.args
+        for arg in a.posonlyargs + a.args + a.kwonlyargs:
+            ann = ast.unparse(arg.annotation) if arg.annotation is not None else ""
+            if ann.split(".")[-1] in ("Expr", "Basic"):
+                env[f].add(arg.arg)
+
+    def parses(f, call) -> bool:
+        fn = call.func
+        if (ctx.repo.external_name(f.module, fn) or "") in PARSE_CALLS:
+            return True
+        if isinstance(fn, ast.Attribute) and isinstance(fn.value, ast.Name) and fn.value.id == f.self_name and fn.attr in parser_attrs:
+            return True
+        try:
+            targets, how = ctx.cg.resolve_call(f, call)
+        except Exception:
+            return False
+        return how != "by-name" and any(t in funcs_parsing for t in targets)
+    funcs_parsing: Set[object] = set()
+
+    def is_expr(f, e) -> bool:
+        if isinstance(e, ast.Name):
+            return e.id in env[f]
+        if isinstance(e, ast.Attribute) and isinstance(e.value, ast.Name) and e.value.id == f.self_name:
+            return e.attr in expr_attrs
+        if isinstance(e, ast.Call):
+            if parses(f, e):
+                return True
+            fn = e.func
+            if isinstance(fn, ast.Attribute) and is_expr(f, fn.value) and (fn.attr in ACCEPTED_EXPR_TRANSFORMS or fn.attr in REWRITING_OPS
+                                                                          or fn.attr in ("func", "doit", "copy")):
+                return True
+            ext = ctx.repo.external_name(f.module, fn) or ""
+            if ext.startswith("sympy.") and ext.split(".")[-1] in REWRITING_OPS and e.args and is_expr(f, e.args[0]):
+                return True
+            try:
+                targets, how = ctx.cg.resolve_call(f, e)
+            except Exception:
+                return False
+            return how != "by-name" and bool(targets) and all(t in returns_expr for t in targets)
+        if isinstance(e, ast.Subscript):
+            return is_tuple(f, e.value)
+        if isinstance(e, ast.IfExp):
+            return is_expr(f, e.body) or is_expr(f, e.orelse)
+        return False
+
+    def is_tuple(f, e) -> bool:
+        if isinstance(e, ast.Name):
+            return e.id in tup[f]
+        if isinstance(e, ast.Attribute) and e.attr == "args":
+            return is_expr(f, e.value)
+        if isinstance(e, ast.Call):
+            if isinstance(e.func, ast.Name) and e.func.id in ("list", "tuple", "sorted", "reversed", "enumerate") and e.args:
+                return is_tuple(f, e.args[0])
+            return any(is_tuple(f, a) for a in e.args)      # a helper that re-orders / filters the arguments
+        if isinstance(e, (ast.List, ast.Tuple)):
+            return any(is_expr(f, x) for x in e.elts)
+        if isinstance(e, (ast.ListComp, ast.GeneratorExp)):
+            return any(is_tuple(f, g.iter) for g in e.generators)
+        return False
+    returns_expr: Set[object] = set()
+    for _ in range(6):
+        before = (sum(len(v) for v in env.values()), sum(len(v) for v in tup.values()), len(expr_attrs), len(returns_expr), len(funcs_parsing))
+        for f in funcs:
+            for st in walk_shallow(f.node):
+                if isinstance(st, (ast.Assign, ast.AnnAssign)) and st.value is not None:
+                    targets = st.targets if isinstance(st, ast.Assign) else [st.target]
+                    for t in targets:
+                        pairs = [(t, st.value)]
+                        if isinstance(t, (ast.Tuple, ast.List)) and isinstance(st.value, (ast.Tuple, ast.List)) and len(t.elts) == len(st.value.elts):
+                            pairs = list(zip(t.elts, st.value.elts))
+                        for tt, vv in pairs:
+                            if isinstance(tt, ast.Name):
+                                if is_expr(f, vv):
+                                    env[f].add(tt.id)
+                                elif is_tuple(f, vv):
+                                    tup[f].add(tt.id)
+                            elif isinstance(tt, ast.Attribute) and isinstance(tt.value, ast.Name) and tt.value.id == f.self_name and is_expr(f, vv):
+                                expr_attrs.add(tt.attr)
+                elif isinstance(st, (ast.For, ast.comprehension)) and is_tuple(f, st.iter):
+                    for nm in target_names(st.target):
+                        env[f].add(nm)
+                elif isinstance(st, ast.Return) and st.value is not None:
+                    if is_expr(f, st.value):
+                        returns_expr.add(f)
+                    if isinstance(st.value, ast.Call) and parses(f, st.value):
+                        funcs_parsing.add(f)
+                    if isinstance(st.value, ast.Subscript) and any(isinstance(c, ast.Call) and parses(f, c) for c in ast.walk(f.node)):
+                        returns_expr.add(f)         # a memo of parse results
+            # parameters that receive expressions at call sites inside the analysed functions
+            for call, targets, how in ctx.cg.calls.get(f, ()):
+                if how == "by-name":
+                    continue
+                for g in targets:
+                    if g in env:
+                        for q, x in _bind_args(g, call).items():
+                            if q in g.params:
+                                if is_expr(f, x):
+                                    env[g].add(q)
+                                elif is_tuple(f, x):
+                                    tup[g].add(q)
+        after = (sum(len(v) for v in env.values()), sum(len(v) for v in tup.values()), len(expr_attrs), len(returns_expr), len(funcs_parsing))
+        if after == before:
+            break
+    return is_expr, expr_attrs
+
+
+def r7_parsed_expression_is_not_rewritten(ctx, rid):
+    """ExpressionParser turns an equation string into a sympy expression tree (parse_func) and hands its nodes to the compute
+    graph.  The arithmetic that is evaluated and printed is that tree: floating-point evaluation depends on how it is
+    written (exp(a - b) vs exp(a)*exp(-b): inf*0 = nan; (a - b)**2 vs a**2 - 2ab + b**2: cancellation).  Necessary: on the way
+    from the parser's result to ComputeGraph.add_op the tree is changed only by the enumerated rewrites (ACCEPTED_EXPR_TRANSFORMS,
+    each with its reason); a sympy simplifier / normaliser / numeric evaluation applied to a parsed expression is a violation;
+    any other method that returns a new expression is not understood (AnalysisError)."""
+    root = ctx.repo.get_func(PARSER_REL, "ExpressionParser.parse_expr")
+    reach = [g for g in ctx.cg.reachable([root]) if g.module is root.module]
+    cls = root.cls
+    # the parsing function: attributes of self that are bound to a function which calls sympy's parser (or another parser object)
+    parser_attrs: Set[str] = set()
+    for m in cls.methods.values():
+        for st in walk_shallow(m.node):
+            if isinstance(st, ast.Assign) and len(st.targets) == 1 and isinstance(st.targets[0], ast.Attribute) \
+                    and isinstance(st.targets[0].value, ast.Name) and st.targets[0].value.id == m.self_name:
+                r = ctx.repo.resolve_expr(m.module, st.value) if isinstance(st.value, (ast.Name, ast.Attribute)) else None
+                ext = ctx.repo.external_name(m.module, st.value) if isinstance(st.value, (ast.Name, ast.Attribute)) else None
+                if (ext or "") in PARSE_CALLS or (r is not None and hasattr(r, "node") and any(
+                        isinstance(c, ast.Call) and (ctx.repo.external_name(r.module, c.func) or "") in PARSE_CALLS for c in ast.walk(r.node))):
+                    parser_attrs.add(st.targets[0].attr)
+    ctx.require(parser_attrs, f"{rid}: the attribute that holds the parsing function (bound to a sympify wrapper) was not found in {cls.name}")
+    funcs = sorted(set(reach) | {ctx.repo.resolve_expr(m.module, st.value) for m in cls.methods.values() for st in walk_shallow(m.node)
+                                 if isinstance(st, ast.Assign) and len(st.targets) == 1 and isinstance(st.targets[0], ast.Attribute)
+                                 and st.targets[0].attr in parser_attrs and isinstance(st.value, (ast.Name, ast.Attribute))
+                                 and hasattr(ctx.repo.resolve_expr(m.module, st.value), "node")}, key=lambda g: g.qual)
+    is_expr, expr_attrs = _expr_typing(ctx, funcs, parser_attrs)
+    n_parse = n = 0
+    for f in funcs:
+        cfg = ctx.cfg(f)
+        for c in [x for x in walk_shallow(f.node) if isinstance(x, ast.Call)]:
+            fn = c.func
+            ext = ctx.repo.external_name(f.module, fn) or ""
+            meth = fn.attr if isinstance(fn, ast.Attribute) else None
+            recv_is_expr = isinstance(fn, ast.Attribute) and is_expr(f, fn.value)
+            fn_on_expr = ext.startswith("sympy.") and c.args and is_expr(f, c.args[0])
+            if ext in PARSE_CALLS or (isinstance(fn, ast.Attribute) and isinstance(fn.value, ast.Name) and fn.value.id == f.self_name
+                                      and fn.attr in parser_attrs):
+                n_parse += 1
+                continue
+            if not (recv_is_expr or fn_on_expr):
+                continue
+            name = meth if recv_is_expr else ext.split(".")[-1]
+            st = stmt_of(cfg, c)
+            target = ast.unparse(fn.value) if recv_is_expr else ast.unparse(c.args[0])
+            if name in REWRITING_OPS:
+                n += 1
+                ctx.violation(rid, f, st, f"`{ast.unparse(c)[:120]}` applies sympy's `{name}` to the parsed expression `{target}`: the tree handed to "
+                                          f"the compute graph is no longer the arithmetic that was written (e.g. exp(a - b) becomes "
+                                          f"exp(a)*exp(-b), powers of sums are multiplied out), so the compiled function evaluates a "
+                                          f"different floating-point expression (overflow to nan, cancellation)",
+                              {"operation": name, "applied_to": target}, label=f"`{name}` applied to a parsed expression")
+            elif name in ACCEPTED_EXPR_TRANSFORMS:
+                n += 1
+                ctx.ok(rid, f, st, f"`{name}` on the parsed expression: {ACCEPTED_EXPR_TRANSFORMS[name]}", {"operation": name, "applied_to": target},
+                       label=f"`{name}` applied to a parsed expression")
+            elif name in EXPR_QUERIES or name.startswith("is_") or name.startswith("as_"):
+                continue
+            elif recv_is_expr and name in ("func",):
+                raise AnalysisError(f"{rid}: {f.qual}: `{ast.unparse(c)[:100]}` rebuilds a parsed expression (unrecognised transformation)")
+            else:
+                raise AnalysisError(f"{rid}: {f.qual}: `{ast.unparse(c)[:100]}` applies `{name}` to a parsed expression; it is neither an "
+                                    f"enumerated rewrite nor a known read-only query")
+    ctx.require(n_parse >= 1, f"{rid}: no call of the parsing function found on the way from parse_expr to the compute graph")
+    ctx.require(n >= 1, f"{rid}: no transformation of a parsed expression found (the renaming of arguments in _parse_stack vanished?)")
+
+
 RULES = [
     ("C05-R1", r4_fresh_name_generator, 6),
     ("C05-R2", r2_generated_names_never_overwrite, 3),
@@ -1141,4 +1344,5 @@ RULES = [
     ("C05-R4", r4_boundary_vocabulary, 1),
     ("C05-R5", r5_literals_inlined_exactly, 1),
     ("C05-R6", r6_scope_membership_by_path_components, 1),
+    ("C05-R7", r7_parsed_expression_is_not_rewritten, 2),
 ]
